@@ -10,7 +10,10 @@ import (
 
 // Opaque models of a few standard-library / third-party objects (contracts listed in DESIGN §3.6).
 
-type BufV struct{ S *smt.Term }                       // bytes.Buffer: content as one String term
+type BufV struct { // bytes.Buffer: content as one String term; Ver counts modifications
+	S   *smt.Term
+	Ver int
+}
 type EncV struct {                                     // json.Encoder
 	W      Val // io.Writer interface value
 	Indent bool
@@ -19,6 +22,8 @@ type ReaderV struct { // bytes.Reader
 	S   *smt.Term // whole content
 	Nil *smt.Term
 	Off *smt.Term // bytes consumed (Int)
+	Src Ptr       // aliasing bytes.Buffer, if any
+	Ver int
 }
 
 // flatten renders a Go value as a list of terms (structure tags + leaves) for uninterpreted encodings.
@@ -81,7 +86,7 @@ func (ex *Executor) flatten(st *State, v Val, depth int, out *[]*smt.Term) {
 		}
 		*out = append(*out, smt.StrC("]"))
 	case BytesV:
-		*out = append(*out, smt.App("b64std", smt.String, x.S))
+		*out = append(*out, smt.App("b64std", smt.String, ex.bytesContent(st, x)))
 	case MapV:
 		*out = append(*out, smt.StrC("map@"+x.Obj.String()))
 	default:
@@ -100,8 +105,10 @@ func (ex *Executor) bufAt(st *State, p Ptr) *BufV {
 
 func registerExtlib(ex *Executor) {
 	I := ex.Intr
+	registerPool(ex)
 	I["(*bytes.Buffer).Bytes"] = func(ex *Executor, st *State, cc *CallCtx, args []Val) (Val, ctl) {
-		return BytesV{S: ex.bufAt(st, args[0].(Ptr)).S, Nil: smt.False}, cNext
+		b := ex.bufAt(st, args[0].(Ptr))
+		return BytesV{S: b.S, Nil: smt.False, Src: args[0].(Ptr), Ver: b.Ver}, cNext
 	}
 	I["(*bytes.Buffer).String"] = func(ex *Executor, st *State, cc *CallCtx, args []Val) (Val, ctl) {
 		p := args[0].(Ptr)
@@ -114,7 +121,7 @@ func registerExtlib(ex *Executor) {
 		return ex.strLen(st, ex.bufAt(st, args[0].(Ptr)).S), cNext
 	}
 	I["(*bytes.Buffer).Reset"] = func(ex *Executor, st *State, cc *CallCtx, args []Val) (Val, ctl) {
-		ex.store(st, args[0].(Ptr), &BufV{S: smt.StrC("")})
+		ex.store(st, args[0].(Ptr), &BufV{S: smt.StrC(""), Ver: ex.bufAt(st, args[0].(Ptr)).Ver + 1})
 		return nil, cNext
 	}
 	bufWrite := func(ex *Executor, st *State, cc *CallCtx, args []Val) (Val, ctl) {
@@ -123,7 +130,7 @@ func registerExtlib(ex *Executor) {
 		var add *smt.Term
 		switch x := args[1].(type) {
 		case BytesV:
-			add = x.S
+			add = ex.bytesContent(st, x)
 		case *smt.Term:
 			add = x
 		case SliceV:
@@ -131,7 +138,7 @@ func registerExtlib(ex *Executor) {
 		default:
 			ex.abort("Buffer.Write of %T", x)
 		}
-		ex.store(st, p, &BufV{S: smt.Concat(b.S, add)})
+		ex.store(st, p, &BufV{S: smt.Concat(b.S, add), Ver: b.Ver + 1})
 		return TupleV{ex.strLen(st, add), IfaceV{}}, cNext
 	}
 	I["(*bytes.Buffer).Write"] = bufWrite
@@ -198,7 +205,7 @@ func registerExtlib(ex *Executor) {
 			ex.abort("json.Encoder over unsupported writer %s", w.T)
 		}
 		if b, ok := ex.load(st, bp).(*BufV); ok {
-			ex.store(st, bp, &BufV{S: smt.Concat(b.S, doc)})
+			ex.store(st, bp, &BufV{S: smt.Concat(b.S, doc), Ver: b.Ver + 1})
 			return IfaceV{}, cNext
 		}
 		ex.abort("json.Encoder over unsupported writer %s", w.T)
@@ -210,7 +217,7 @@ func registerExtlib(ex *Executor) {
 		var r *ReaderV
 		switch x := args[0].(type) {
 		case BytesV:
-			r = &ReaderV{S: x.S, Nil: x.Nil, Off: smt.IntC(0)}
+			r = &ReaderV{S: x.S, Nil: x.Nil, Off: smt.IntC(0), Src: x.Src, Ver: x.Ver}
 		case SliceV:
 			r = &ReaderV{S: ex.convert(st, x, nil, types.Typ[types.String]).(*smt.Term), Nil: smt.BoolC(x.Arr == nil), Off: smt.IntC(0)}
 		default:
@@ -221,10 +228,11 @@ func registerExtlib(ex *Executor) {
 	// verifReaderRest(r) []byte : the unread part (whole content when nothing was consumed)
 	I["@verifReaderRest"] = func(ex *Executor, st *State, cc *CallCtx, args []Val) (Val, ctl) {
 		r := ex.load(st, args[0].(Ptr)).(*ReaderV)
+		content := ex.bytesContent(st, BytesV{S: r.S, Nil: r.Nil, Src: r.Src, Ver: r.Ver})
 		if o, ok := r.Off.Int64(); ok && o == 0 {
-			return BytesV{S: r.S, Nil: smt.False}, cNext
+			return BytesV{S: content, Nil: smt.False}, cNext
 		}
-		return BytesV{S: smt.App("suffix", smt.String, r.S, r.Off), Nil: smt.False}, cNext
+		return BytesV{S: smt.App("suffix", smt.String, content, r.Off), Nil: smt.False}, cNext
 	}
 	I["@verifReaderLeft"] = func(ex *Executor, st *State, cc *CallCtx, args []Val) (Val, ctl) {
 		r := ex.load(st, args[0].(Ptr)).(*ReaderV)
@@ -233,7 +241,7 @@ func registerExtlib(ex *Executor) {
 	I["@verifReaderAdvance"] = func(ex *Executor, st *State, cc *CallCtx, args []Val) (Val, ctl) {
 		p := args[0].(Ptr)
 		r := ex.load(st, p).(*ReaderV)
-		ex.store(st, p, &ReaderV{S: r.S, Nil: r.Nil, Off: smt.Add(r.Off, args[1].(*smt.Term))})
+		ex.store(st, p, &ReaderV{S: r.S, Nil: r.Nil, Off: smt.Add(r.Off, args[1].(*smt.Term)), Src: r.Src, Ver: r.Ver})
 		return nil, cNext
 	}
 	I["(*bytes.Reader).Seek"] = func(ex *Executor, st *State, cc *CallCtx, args []Val) (Val, ctl) {
@@ -244,7 +252,7 @@ func registerExtlib(ex *Executor) {
 		if !ok1 || !ok2 || wh != 0 {
 			ex.abort("bytes.Reader.Seek: only Seek(const, io.SeekStart) is modelled")
 		}
-		ex.store(st, p, &ReaderV{S: r.S, Nil: r.Nil, Off: smt.IntC(off)})
+		ex.store(st, p, &ReaderV{S: r.S, Nil: r.Nil, Off: smt.IntC(off), Src: r.Src, Ver: r.Ver})
 		return TupleV{smt.IntC(off), IfaceV{}}, cNext
 	}
 	I["(*bytes.Reader).Len"] = func(ex *Executor, st *State, cc *CallCtx, args []Val) (Val, ctl) {
@@ -274,7 +282,7 @@ func registerExtlib(ex *Executor) {
 		var s *smt.Term
 		switch x := args[1].(type) {
 		case BytesV:
-			s = x.S
+			s = ex.bytesContent(st, x)
 		case SliceV:
 			s = ex.convert(st, x, nil, types.Typ[types.String]).(*smt.Term)
 		default:
@@ -296,5 +304,51 @@ func registerExtlib(ex *Executor) {
 		st.ND = append(st.ND[:len(st.ND):len(st.ND)], NDRec{Kind: "ext-string", Tag: "base62.Random", T: v})
 		st.addPC(smt.Ne(v, smt.StrC("")))
 		return TupleV{v, IfaceV{}}, cNext
+	}
+}
+
+// bytesContent returns the content of a []byte value. A slice obtained from bytes.Buffer.Bytes() aliases the
+// buffer's memory: once the buffer has been modified (Reset / Write / Encode into it) the slice no longer holds
+// what it held — its content is then an unconstrained string (whatever the buffer was overwritten with).
+func (ex *Executor) bytesContent(st *State, b BytesV) *smt.Term {
+	if b.Src.Obj == nil {
+		return b.S
+	}
+	root, ok := st.Heap[b.Src.Obj]
+	if !ok {
+		return b.S
+	}
+	cur, ok := getPath(root, parsePath(b.Src.Path)).(*BufV)
+	if !ok || cur.Ver == b.Ver {
+		return b.S
+	}
+	st.note("read of a bytes.Buffer.Bytes() slice after the buffer was modified")
+	return st.fresh("stale_bytes", smt.String)
+}
+
+func registerPool(ex *Executor) {
+	I := ex.Intr
+	// sync.Pool: Get returns a previously Put value (environment choice) or reports none
+	I["@verifPoolTake"] = func(ex *Executor, st *State, cc *CallCtx, args []Val) (Val, ctl) {
+		key := "pool:" + lockKey(args[0].(Ptr))
+		items, _ := st.Ghost[key].([]Val)
+		if len(items) == 0 {
+			return TupleV{IfaceV{}, smt.False}, cNext
+		}
+		reuse := smt.Var(fmt.Sprintf("nd%d_%s", len(st.ND), "poolreuse"), smt.Bool)
+		take := ex.branch(st, reuse)
+		st.ND = append(st.ND[:len(st.ND):len(st.ND)], NDRec{Kind: "ext-bool", Tag: "sync.Pool.Get reuses", T: reuse})
+		if !take {
+			return TupleV{IfaceV{}, smt.False}, cNext
+		}
+		x := items[len(items)-1]
+		st.Ghost[key] = append([]Val(nil), items[:len(items)-1]...)
+		return TupleV{x, smt.True}, cNext
+	}
+	I["@verifPoolGive"] = func(ex *Executor, st *State, cc *CallCtx, args []Val) (Val, ctl) {
+		key := "pool:" + lockKey(args[0].(Ptr))
+		items, _ := st.Ghost[key].([]Val)
+		st.Ghost[key] = append(append([]Val(nil), items...), args[1])
+		return nil, cNext
 	}
 }
